@@ -8,6 +8,10 @@ import Csproto.Props.C12
 #print axioms Csproto.C12.coherent_clearAll
 #print axioms Csproto.C12.coherent_range_has
 #print axioms Csproto.C12.transparent
+#print axioms Csproto.C12.set_then_has_get
+#print axioms Csproto.C12.clear_then_absent
+#print axioms Csproto.C12.clearAll_then_absent
+#print axioms Csproto.C12.number_blind
 #print axioms Csproto.C12.mismatch
 #print axioms Csproto.C12.cross_family_refused
 #print axioms Csproto.C12.history_refines
@@ -16,3 +20,6 @@ import Csproto.Props.C12
 #print axioms Csproto.C12.ext_asserts_nothing_else
 #print axioms Csproto.Bridge.arms_call_owner
 #print axioms Csproto.Bridge.arms_assert_owner
+#print axioms Csproto.Bridge.shimFrame_ok
+#print axioms Csproto.Bridge.shimArms_ok
+#print axioms Csproto.Bridge.shimArms_complete
